@@ -173,7 +173,6 @@ uint64_t rot_left(uint64_t size, uint64_t a, uint64_t b)
 {
     uint64_t tmp;
 
-    b = b & 0x3F;
     b %= size;
     switch(size){
 	    case 8:
@@ -211,7 +210,6 @@ uint64_t rot_right(uint64_t size, uint64_t a, uint64_t b)
 {
     uint64_t tmp;
 
-    b = b & 0x3F;
     b %= size;
     switch(size){
 	    case 8:
